@@ -126,6 +126,21 @@ def c14_cases(rng, tier):
             bs = bs[:i] + bytes([rng.choice([0, 0xFF, 0x0F, rng.randrange(256)])]) + bs[i:]
         cases.append(f"mapped {hx(bs)}")
         oracles.append(f"o_mapped {hx(bs)}")
+    # execution through both access paths: jumps (incl. past the end), repeats, compute, state reads
+    from . import gen_vm
+    progs, _ = gen_vm.c09_cases(rng, tier)
+    progs2, _ = gen_vm.c10_cases(rng, tier)
+    step = 3 if tier == "quick" else 1
+    for c in (progs + progs2)[::step]:
+        c = c.replace("prog eval ", "prog ops ", 1)
+        cases.append(c.replace("prog ops ", "prog bytes ", 1))
+        oracles.append("o_both" + c[4:])
+    P, op = gen_vm.P, gen_vm.op
+    for extra in ([P(3), P(1), op("JMPIF"), P(9)], [P(5), P(1), op("JMPIF"), P(9)], [P(1)]):
+        for pc in (0, 1, 4, 5, 6, 100):
+            c = gen_vm.case(extra, pc=pc)
+            cases.append(c.replace("prog ops ", "prog bytes ", 1))
+            oracles.append("o_both" + c[4:])
     return cases, oracles
 
 
